@@ -99,7 +99,8 @@ def quote(value):
 def expected_output(text, settings):
     """What rendering the API result with these settings prints (computed without the shell)."""
     conn = ledgers.connect(LEDGER)
-    cursor = conn.execute(text)
+    # (the oracle spells the statement differently, so that it shares no per-text state with the shell's own parse)
+    cursor = conn.execute('\n' + text + '\n')
     desc, rows = cursor.description, cursor.fetchall()
     dcontext = conn.options['dcontext']
     if settings['numberify']:
@@ -348,11 +349,73 @@ def prop_cli(sh, case):
     return fails
 
 
-PARTS = {'history': prop_history, 'cli': prop_cli}
+RELOAD_V2 = '''
+2019-03-09 * "More digits"
+  Expenses:Food            1.2345 USD
+  Expenses:Fees            0.125 EUR
+  Assets:Bank:Checking    -1.2345 USD
+  Assets:Bank:Checking    -0.125 EUR
+2019-03-09 query "late" "SELECT account, sum(position) AS s WHERE account ~ 'Fees' GROUP BY 1"
+'''
+RELOAD_QUERIES = ["SELECT account, sum(position) AS s GROUP BY account ORDER BY account", "SELECT account, position WHERE account ~ 'Food|Fees'",
+                  'BALANCES', '.run byaccount', '.run late', '.run']
+
+
+def prop_reload(sh, case):
+    """After the ledger file changed and `.reload`, the shell prints what a fresh shell over the new file prints, for every
+    combination of format / numberify: nothing derived from the old ledger (display precision, named queries) survives."""
+    fails = []
+    tmp = tempfile.mkdtemp(prefix='c19r-', dir='/dev/shm' if os.path.isdir('/dev/shm') else None)
+    path = os.path.join(tmp, 'ledger.beancount')
+
+    def run(bsh, out, line):
+        out.seek(0)
+        out.truncate()
+        so, se = io.StringIO(), io.StringIO()
+        with contextlib.redirect_stdout(so), contextlib.redirect_stderr(se), warnings_silenced():
+            try:
+                bsh.onecmd(line)
+            except Exception as e:  # noqa: BLE001
+                return f'raised {type(e).__name__}: {e}'
+        return out.getvalue() + so.getvalue() + '|' + se.getvalue()
+    try:
+        for fmt in ('text', 'csv'):
+            for num in (False, True):
+                with open(path, 'w') as f:
+                    f.write(LEDGER)
+                out = io.StringIO()
+                with warnings_silenced():
+                    old = shell.BQLShell(path, out, format=fmt, numberify=num)
+                    old.do_reload()
+                for q in RELOAD_QUERIES:
+                    run(old, out, q)
+                with open(path, 'w') as f:
+                    f.write(LEDGER + RELOAD_V2)
+                run(old, out, '.reload')
+                out2 = io.StringIO()
+                with warnings_silenced():
+                    new = shell.BQLShell(path, out2, format=fmt, numberify=num)
+                    new.do_reload()
+                for q in RELOAD_QUERIES:
+                    got, want = run(old, out, q), run(new, out2, q)
+                    if got != want:
+                        fails.append(('reload:differs-from-fresh-shell', f'format={fmt} numberify={num} {q!r}\n after .reload:\n{got}\n fresh shell:\n{want}'))
+                    sh.record(f'reload|{fmt}|{num}|{q}', True, {'reload': f'format={fmt} numberify={num} {q}'} if len(sh.samples) < 6 else None)
+    finally:
+        for name in os.listdir(tmp):
+            os.unlink(os.path.join(tmp, name))
+        os.rmdir(tmp)
+    return fails
+
+
+PARTS = {'history': prop_history, 'cli': prop_cli, 'reload': prop_reload}
 
 
 def run(sh):
     if sh.index == 0:
         for sig, detail in prop_cli(sh, None):
             sh.fail(sig, detail, None, 'cli')
+    if sh.index == 1 % sh.n:
+        for sig, detail in prop_reload(sh, None):
+            sh.fail(sig, detail, None, 'reload')
     sh.search('history', history.map(lambda ops: {'ops': ops}), prop_history, quick=1600, thorough=40000)
